@@ -489,6 +489,107 @@ theorem handleC_outcome (c0 : RQJ.Config) (s : SysC N) (i : Fin N) (inp : InputC
         · rw [if_neg h2]
           exact outcomeC_same c0 s i m hm hd (by omega) happ hok
 
+/-- extra leader traffic: any finite list of valid appends, heartbeats and snapshots of the current state can be sent -/
+theorem sendC_many (c0 : RQJ.Config) (i : Fin N) : ∀ (outs : List (Msg1 N)) (s : SysC N),
+    (∀ m ∈ outs, s.l1.net m ∨ leaderOut (s.l1.nodes i) i m) →
+    ∃ net', StepsC c0 s { s with l1 := ⟨s.l1.nodes, net'⟩ } ∧ (∀ m, s.l1.net m → net' m) ∧ (∀ m ∈ outs, net' m) := by
+  intro outs
+  induction outs with
+  | nil => intro s _; exact ⟨s.l1.net, .refl _, fun _ h => h, fun _ h => by cases h⟩
+  | cons m outs ih =>
+    intro s h
+    have hstep : ∃ net1, StepsC c0 s { s with l1 := ⟨s.l1.nodes, net1⟩ } ∧ (∀ x, s.l1.net x → net1 x) ∧ net1 m := by
+      rcases h m (by simp) with hin | ⟨hl, hm⟩
+      · exact ⟨s.l1.net, .refl _, fun _ h => h, hin⟩
+      · rcases hm with ⟨dst, prev, cnt, hp, rfl⟩ | ⟨dst, rfl⟩ | ⟨dst, k, h1, h2, h3, rfl⟩
+        · exact ⟨_, .one (StepC.lift s _ (Step1L.sendApp s.l1 i dst prev cnt hl hp)), send_mono, mem_send rfl⟩
+        · exact ⟨_, .one (StepC.lift s _ (Step1L.sendBeat s.l1 i dst hl)), send_mono, mem_send rfl⟩
+        · exact ⟨_, .one (StepC.lift s _ (Step1L.sendSnap s.l1 i dst k hl ⟨h1, h2, h3⟩)), send_mono, mem_send rfl⟩
+    obtain ⟨net1, st, mono1, hin⟩ := hstep
+    obtain ⟨net', sts, mono2, hall⟩ := ih { s with l1 := ⟨s.l1.nodes, net1⟩ } (fun x hx => (h x (by simp [hx])).imp (mono1 x) id)
+    refine ⟨net', st.trans sts, fun x hx => mono2 x (mono1 x hx), ?_⟩
+    intro x hx
+    rcases List.mem_cons.mp hx with rfl | hx
+    · exact mono2 _ hin
+    · exact hall x hx
+
+/-- **handler ⊆ L1C**: the node after a call of `handleC`, together with every message the implementation may have emitted during it
+    (the computed responses and any valid leader traffic of the new state), is reached by finitely many L1C steps -/
+theorem handleC_in_StepC (c0 : RQJ.Config) (s : SysC N) (i : Fin N) (inp : InputC N) (hen : enabledC c0 s i inp)
+    (happ : s.applied i ≤ (s.l1.nodes i).commit) (outs : List (Msg1 N))
+    (hout : ∀ m ∈ outs, m ∈ (handleC c0 i (s.node i) inp).2 ∨ leaderOut (handleC c0 i (s.node i) inp).1.n i m) :
+    ∃ net', StepsC c0 s (s.put i (handleC c0 i (s.node i) inp).1 net') ∧ (∀ m, s.l1.net m → net' m) ∧ (∀ m ∈ outs, net' m) := by
+  obtain ⟨net1, st1, mono1, hr⟩ := handleC_outcome c0 s i inp hen happ
+  obtain ⟨net2, st2, mono2, hl⟩ := sendC_many c0 i outs (s.put i (handleC c0 i (s.node i) inp).1 net1) (by
+      intro m hm
+      rw [put_l1_node]
+      exact (hout m hm).imp (hr m) id)
+  refine ⟨net2, st1.trans ?_, fun m h => mono2 m (mono1 m h), hl⟩
+  exact st2
+
+/-- runs of the executable config-aware handler: nodes driven only through `handleC`, messages taken from what was emitted -/
+inductive RunC (c0 : RQJ.Config) : SysC N → Prop
+| init : RunC c0 (initC N)
+| call {s} (i : Fin N) (inp : InputC N) (outs : List (Msg1 N)) : RunC c0 s → enabledC c0 s i inp →
+    (∀ m ∈ outs, m ∈ (handleC c0 i (s.node i) inp).2 ∨ leaderOut (handleC c0 i (s.node i) inp).1.n i m) →
+    RunC c0 (s.put i (handleC c0 i (s.node i) inp).1 (fun m => s.l1.net m ∨ m ∈ outs))
+
+theorem reachC_steps {c0 : RQJ.Config} {a b : SysC N} (h : ReachC c0 a) (st : StepsC c0 a b) : ReachC c0 b := by
+  induction st with
+  | refl => exact h
+  | tail _ s ih => exact .step ih s
+
+/-- every run of handler calls is covered by a reachable L1C state with the same nodes and at least its messages -/
+theorem runC_covered {c0 : RQJ.Config} {s : SysC N} (r : RunC c0 s) :
+    ∃ s1, ReachC c0 s1 ∧ s1.l1.nodes = s.l1.nodes ∧ s1.applied = s.applied ∧ s1.pend = s.pend ∧ ∀ m, s.l1.net m → s1.l1.net m := by
+  induction r with
+  | init => exact ⟨_, .init, rfl, rfl, rfl, fun _ h => h⟩
+  | @call s i inp outs _ hen hout ih =>
+    obtain ⟨s1, r1, hn, ha, hp, hnet⟩ := ih
+    have hnode : s1.node i = s.node i := by simp [SysC.node, hn, ha, hp]
+    have hen1 : enabledC c0 s1 i inp := by
+      cases inp with
+      | recv m => exact ⟨hnet m hen.1, hen.2.1, by rw [hn, ha, hp]; exact hen.2.2⟩
+      | restart a => show a ≤ s1.applied i; rw [ha]; exact hen
+      | _ => trivial
+    obtain ⟨net', st, mono, hin⟩ := handleC_in_StepC c0 s1 i inp hen1 (L1C_applied_le r1 i) outs (by rw [hnode]; exact hout)
+    refine ⟨_, reachC_steps r1 st, ?_, ?_, ?_, ?_⟩
+    · simp [SysC.put, hn, hnode]
+    · simp [SysC.put, ha, hnode]
+    · simp [SysC.put, hp, hnode]
+    · intro m hm
+      rcases hm with hm | hm
+      · exact mono m (hnet m hm)
+      · exact hin m hm
+
+/-- **C15 under membership changes, for every run of the executable handler `handleC`** — the function the lock-step engine replays
+    against etcd's `RawNode` on the member schedules: any cluster size, any initial configuration, any schedule of messages, ticks,
+    proposals, membership changes (add / remove / add-learner / promote), applications and restarts (inputs as `enabledC` allows them):
+    election safety, log matching, leader completeness and state-machine safety, on the handler's own node states. -/
+theorem runC_safe {c0 : RQJ.Config} {s : SysC N} (r : RunC c0 s) :
+    (∀ i j : Fin N, (s.l1.nodes i).role = .leader → (s.l1.nodes j).role = .leader → (s.l1.nodes i).term = (s.l1.nodes j).term → i = j) ∧
+    (∀ (i j : Fin N) (k : Nat), 1 ≤ k → k ≤ (s.l1.nodes i).log.length → k ≤ (s.l1.nodes j).log.length →
+      termAt (s.l1.nodes i).log k = termAt (s.l1.nodes j).log k → (s.l1.nodes i).log.take k = (s.l1.nodes j).log.take k) ∧
+    (∀ i j : Fin N, (s.l1.nodes i).role = .leader → (s.l1.nodes j).term ≤ (s.l1.nodes i).term →
+      (s.l1.nodes j).commit ≤ (s.l1.nodes i).log.length ∧
+      (s.l1.nodes i).log.take (s.l1.nodes j).commit = (s.l1.nodes j).log.take (s.l1.nodes j).commit) ∧
+    (∀ (i j : Fin N) (m : Nat), m ≤ (s.l1.nodes i).commit → m ≤ (s.l1.nodes j).commit →
+      (s.l1.nodes i).log.take m = (s.l1.nodes j).log.take m) := by
+  obtain ⟨s1, r1, hn, _, _, _⟩ := runC_covered r
+  rw [← hn]
+  exact ⟨L1C_election_safety r1, L1C_log_matching r1, L1C_leader_completeness r1, L1C_state_machine_safety r1⟩
+
+theorem runC_election_safety {c0 : RQJ.Config} {s : SysC N} (r : RunC c0 s) (i j : Fin N)
+    (hi : (s.l1.nodes i).role = .leader) (hj : (s.l1.nodes j).role = .leader) (ht : (s.l1.nodes i).term = (s.l1.nodes j).term) : i = j :=
+  (runC_safe r).1 i j hi hj ht
+
+theorem runC_state_machine_safety {c0 : RQJ.Config} {s : SysC N} (r : RunC c0 s) (i j : Fin N) (m : Nat)
+    (hi : m ≤ (s.l1.nodes i).commit) (hj : m ≤ (s.l1.nodes j).commit) : (s.l1.nodes i).log.take m = (s.l1.nodes j).log.take m :=
+  (runC_safe r).2.2.2 i j m hi hj
+
 #print axioms outcomeC_same
 #print axioms handleC_outcome
+#print axioms handleC_in_StepC
+#print axioms runC_covered
+#print axioms runC_safe
 end RHC
